@@ -24,7 +24,10 @@ LEVEL_NOTE = ("Partial: a node whose applied entries were rolled back by a later
               "check is the versioned key-value map of server/kv/db.go for single-key puts/conditional puts/deletes/delete-ranges and "
               "get/list/range-scan on plain keys (C12 proves the DB against its full specification); session and sequence operations are not "
               "in the histories. Deposed-leader allowance as in the property text: a read served by a node that is not the latest leader may "
-              "return any committed prefix. Trusted: Coq kernel, extraction, the Go harness (see C01).")
+              "return any committed prefix. Client side of 'at most once' (leg client-wsend, theorem c02_write_sent_at_most_once): the statement is about the whole "
+              "client write path -- writeBatch's retry loop is the only place that retries, the executor (ExecuteWrite / writeStream) and the stream wrapper add none; the leg "
+              "runs the real writeBatch over the REAL executorImpl (verif hook NewVerifExecutor2) over the real streamWrapper over scripted in-memory streams with a real kv.DB "
+              "as server. Trusted: Coq kernel, extraction, the Go harness (see C01).")
 TRUSTED = ["in-process replacement of gRPC (see C01)", "value ids carried in the put values identify log entries; version ids follow db.go's counter"]
 ASSUMES = ["fixed ensemble and consistent_run for the 'acknowledged writes are never rolled back' theorem (see C01)"]
 RULE = ("trace: as C01, with longer client histories; non-trivial = at least one acknowledged write and one read checked; distinct by action list; "
